@@ -268,8 +268,6 @@ def oracle_miter(case):
         return None
     if len(m._inputs) != len(l['inputs']) or len(m._outputs) != 1:
         return f'miter has {len(m._inputs)} inputs / {len(m._outputs)} outputs'
-    if list(m._inputs) != ['circuit1@' + i for i in l['inputs']]:
-        return f'miter inputs {m._inputs} are not the left inputs in order'
     msg = wforacle.wf_violation(m)
     if msg:
         return 'miter not well formed: ' + msg
